@@ -395,3 +395,51 @@ def _(self, cfg, img_left, img_right, right_left_img_check):
             implies(ncalls("check_conf") == 1, event_before("self.check_conf(", "self.left_img = img_left") is False
                     and len([t for t in event_texts() if t == "self.left_img = img_left"]) == 2
                     and event_texts()[-1] == "self.right_img = img_right" and event_texts()[-2] == "self.left_img = img_left"))
+
+
+# C01 ("each configured step takes effect, in the order written"): pandora.run -- the scale parameters are read from the
+# configuration, the machine is prepared ONCE with (cfg, left, right, scale_factor, num_scales) before any step, every step of
+# the pipeline is handed to the machine in the pipeline's own order (generic iteration of the loop over list(cfg['pipeline']),
+# itself inside the loop over the scales) together with the whole configuration, the machine is reset once after the loops, and
+# the machine's own left / right disparity datasets are returned, left first.
+@contract("pandora.run", props=["C01", "C08", "C15"])
+def _(pandora_machine, img_left, img_right, cfg):
+    types(pandora_machine="opaque", img_left="opaque", img_right="opaque", cfg="opaque")
+    option(glue=True)
+    ensures("prepared_once_before_any_step", ncalls("run_prepare") == 1, ncalls("read_multiscale_params") == 1,
+            call_arg_mentions("read_multiscale_params", 0, 0, "cfg"),
+            call_arg_mentions("run_prepare", 0, 0, "cfg"), call_arg_mentions("run_prepare", 0, 1, "img_left"),
+            call_arg_mentions("run_prepare", 0, 2, "img_right"),
+            # read_multiscale_params returns (num_scales, scale_factor); run_prepare takes (..., scale_factor, num_scales)
+            call_arg_mentions("run_prepare", 0, 3, "read_multiscale_params(cfg)[1]"),
+            call_arg_mentions("run_prepare", 0, 4, "read_multiscale_params(cfg)[0]"),
+            event_before("run_prepare(", "pandora_machine.run("))
+    ensures("every_step_in_pipeline_order_at_every_scale", ncalls("run") == 1,
+            in_loop("pandora_machine.run(", "list(cfg['pipeline'])"), in_loop("pandora_machine.run(", "range(pandora_machine.num_scales)"),
+            call_arg_mentions("run", 0, 0, "<each elem of list(cfg['pipeline'])>"), call_arg_mentions("run", 0, 1, "cfg"),
+            not call_arg_mentions("run", 0, 1, "["))
+    ensures("a_scale_ends_early_only_when_the_machine_is_back_at_begin",
+            break_guard() is None or break_guard() == "pandora_machine.state == 'begin'")
+    ensures("reset_once_after_the_steps", ncalls("run_exit") == 1, event_before("pandora_machine.run(", "run_exit("),
+            not in_loop("run_exit(", "range(pandora_machine.num_scales)"))
+    ensures("returns_the_machines_left_then_right_disparity",
+            result_text() == "(pandora_machine.left_disparity, pandora_machine.right_disparity)")
+
+
+# C01: PandoraMachine.run -- a step fires the trigger of its head ('filter.1' -> 'filter') with the whole configuration and ITS OWN
+# key; PandoraMachine.run_exit removes the run transitions and puts the machine back to 'begin' (a machine can be reused).
+@contract("pandora.state_machine.PandoraMachine.run", props=["C01"])
+def _(self, input_step, cfg):
+    types(input_step="opaque", cfg="opaque")
+    option(glue=True)
+    ensures("head_trigger_own_key", ncalls("trigger") == 1, call_arg_mentions("trigger", 0, 0, "input_step.split('.')[0]"),
+            call_arg_mentions("trigger", 0, 1, "cfg"), not call_arg_mentions("trigger", 0, 1, "["),
+            call_arg_mentions("trigger", 0, 2, "input_step"), not call_arg_mentions("trigger", 0, 2, "split"))
+
+
+@contract("pandora.state_machine.PandoraMachine.run_exit", props=["C01", "C18"])
+def _(self):
+    option(glue=True)
+    ensures("run_transitions_removed_then_begin", ncalls("remove_transitions") == 1,
+            call_arg_mentions("remove_transitions", 0, 0, "self._transitions_run"), ncalls("set_state") == 1,
+            call_arg_mentions("set_state", 0, 0, "'begin'"), event_before("remove_transitions(", "set_state("))
